@@ -87,7 +87,8 @@ CHECKS = {
  'C13': dict(
     text='Theorems (Coq, any body, any history of reads): a cache hit returns the value stored under the current timestamp; a miss evaluates the body at the current index and '
          'stores it under that timestamp; soundness invariant: if every cached value is the body value of its time point, each read serves the value of the current time point '
-         'and keeps the invariant (any visit order); sample-at empties every cache; naming relative to captured scope/group; ~/# references fixed at definition; the defined '
+         'and keeps the invariant (any visit order); reads at ANY sequence of indices (any order, repeats) give the body value at each index (VirtualOrder.v, with a '
+         'real-evaluator instance); sample-at empties every cache; naming relative to captured scope/group; ~/# references fixed at definition; the defined '
          'signal is listed. PARTIAL: that bodies of the fragment are functions of the time point is the premise, exercised by the differential check.' + DIFF,
     technique='Coq proof (cache soundness invariant over all read histories) + differential correspondence + body-vs-signal oracle'),
  'C14': dict(
